@@ -107,7 +107,7 @@ func Items(quick bool) []Item {
 		}
 	}
 	// literals that need escaping, typed literals
-	for _, s := range []string{"a", `"`, `\`, "\n", "é", "'", "\t", "日本", "a b", "<", "=", ".", "|", "~"} {
+	for _, s := range []string{"a", `"`, `\`, "\n", "é", "'", "\t", "日本", "a b", "<", "=", ".", "|", "~", "%", "%d%s", "100%", "`", "a`b"} {
 		add("literal", g.Seq(g.Lit(s), gfam.CapMark(g.Lit(s))))
 		add("literal", g.Alt(g.LitT(s, "Ident"), g.Grp(g.Lit(s), '*')))
 	}
